@@ -41,7 +41,9 @@ def scan_function(fn: ast.AST, member_name: str, ordering_scope: bool, helpers=(
             out.append(("floor-division", u(n)[:70], "weighted counts and bases are fractional: integer division truncates them"))
         if isinstance(n, ast.AugAssign) and isinstance(n.op, ast.FloorDiv):
             out.append(("floor-division", u(n)[:70], "weighted counts and bases are fractional: integer division truncates them"))
-        if isinstance(n, ast.Call) and isinstance(n.func, ast.Attribute) and n.func.attr == "astype" and n.args and u(n.args[0]) in _INT_TYPES and "median" not in member_name and not _only_repeat_counts(fn, n):
+        if (isinstance(n, ast.Call) and isinstance(n.func, ast.Attribute) and n.func.attr == "astype" and n.args and u(n.args[0]) in _INT_TYPES and "median" not in member_name and not _only_repeat_counts(fn, n)
+                # positions are integers already: np.flatnonzero / np.nonzero / np.where(cond) / np.argsort / np.arange results
+                and not (isinstance(n.func.value, ast.Call) and u(n.func.value.func) in ("np.flatnonzero", "np.nonzero", "np.argsort", "np.arange", "np.argwhere", "np.searchsorted", "np.argmax", "np.argmin"))):
             out.append(("int-cast", u(n)[:70], "weighted counts / values are fractional: the cast truncates them (integer counts are specified for the median only)"))
         if isinstance(n, ast.Compare):
             for op, c in zip(n.ops, n.comparators):
